@@ -93,6 +93,7 @@ Json Config::to_json() const
     g.set("nul_bytes", gf.nul_bytes);
     g.set("no_path", gf.no_path);
     g.set("nonfinite", gf.nonfinite);
+    g.set("rich", gf.rich);
     j.set("gen", g);
     return j;
 }
@@ -117,6 +118,7 @@ Config Config::from_json(const Json& j)
         c.gf.nul_bytes = g->getb("nul_bytes", false);
         c.gf.no_path = g->getb("no_path", true);
         c.gf.nonfinite = g->getb("nonfinite", false);
+        c.gf.rich = g->getb("rich", false);
     }
     return c;
 }
@@ -164,12 +166,15 @@ std::vector<int64_t> Model::children_of(int64_t parent) const
 std::vector<int64_t> Model::descendants_of(int64_t id) const
 {
     std::vector<int64_t> out, stack{id};
+    std::set<int64_t> seen{id};
     while (!stack.empty())
     {
         auto cur = stack.back();
         stack.pop_back();
         for (auto c : children_of(cur))
         {
+            if (!seen.insert(c).second)
+                continue;  // defensive: a model that left the forest domain must not hang the harness
             out.push_back(c);
             stack.push_back(c);
         }
@@ -228,6 +233,10 @@ World::~World()
 void World::report(const std::string& prop, const std::string& key,
                    const std::string& detail)
 {
+    // once a hostile call with undefined model semantics has completed, the
+    // reference model no longer describes the library: model-based verdicts stop
+    if (model_off && (prop == "C01" || prop == "C06" || prop == "C07" || prop == "C08" || prop == "C09" || prop == "C11"))
+        return;
     // one report per class key per run
     for (auto& v : viols)
         if (v.key == key)
